@@ -294,5 +294,16 @@ def rule_n6(repo):
     return res
 
 
+def rule_n7(repo):
+    """The matcher refuses to bind a schematic variable to a term that mentions a bound variable of the
+    pattern (has_vars), and drops an argument only if it does not occur in the rest (get_vars, find_term).
+    These tests are structural recursions and must look at every sub-term - including the function part of
+    a beta-redex."""
+    from ..traverse import traversal_rule
+    return traversal_rule(repo, 'C09.N7', 'the occurrence tests of the matcher look at every sub-term',
+                          [(TERM, 'Term.has_vars'), (TERM, 'Term.has_var'), (TERM, 'Term.get_vars.<locals>.rec'), (MATCHER, 'find_term')],
+                          'a bound variable in the skipped position leaks into the instantiation, which then does not instantiate the pattern to the target')
+
+
 def rules(repo):
-    return [rule_n1(repo), rule_n2(repo), rule_n3(repo), rule_n4(repo), rule_n5(repo), rule_n6(repo)]
+    return [rule_n1(repo), rule_n2(repo), rule_n3(repo), rule_n4(repo), rule_n5(repo), rule_n6(repo), rule_n7(repo)]
